@@ -205,6 +205,7 @@ class _StationBase:
         self._q = None
         self._thread = None
         self._busy = False
+        self.delivering_since = None
 
     # threaded-mode machinery
     def enqueue(self, frame):
@@ -236,7 +237,9 @@ class _StationBase:
                     else:
                         time.sleep(bus.max_delay * rng.random())
                 if not self.detached:
+                    self.delivering_since = time.time()       # (a delivery that never returns = a receive path that blocks)
                     self.deliver(frame)
+                    self.delivering_since = None
                     bus.delivered.append((frame.ts, self.name, frame, time.time()))
             finally:
                 self._busy = False
